@@ -2,6 +2,7 @@
 package main
 
 import (
+	"bufio"
 	"bytes"
 	"fmt"
 	"io"
@@ -444,9 +445,11 @@ func main() {
 			for _, side := range []streams.Side{streams.Server, streams.Client} {
 				for _, inMsg := range []bool{false, true} {
 					for _, limit := range []int64{1, 2, 125, 126, 65535} {
-						for _, ann := range []int64{limit - 1, limit, limit + 1, 1 << 31, 1<<63 - 1} {
-							for _, ch := range []int{0, 1, -1, -2} {
-								// ch<0: nothing follows the header; -2: the end comes with the header's last byte
+						// (negative: the announced 64-bit length has its top bit set - not a length at all)
+						for _, ann := range []int64{limit - 1, limit, limit + 1, 1 << 31, 1<<63 - 1, -1 << 63, -1<<63 + 5, -1} {
+							for _, ch := range []int{0, 1, -1, -2, -3} {
+								// ch<0: nothing follows the header; -2: the end comes with the header's last byte;
+								// -3: the source is a *bufio.Reader that already holds everything
 								side, inMsg, limit, ann, ch := side, inMsg, limit, ann, ch
 								t.Do(func() string {
 									return fmt.Sprintf("%s inMessage=%v MaxFrameSize=%d announced=%d chunk=%d", side, inMsg, limit, ann, ch)
@@ -460,16 +463,30 @@ func main() {
 									}
 									h := refmodel.Hdr{Fin: true, Op: op, Masked: side == streams.Server, Mask: [4]byte{1, 2, 3, 4}, Len: uint64(ann)}
 									hb := refmodel.HdrEncode(h)
+									if ann < 0 {
+										// the reference encoder takes lengths below 2^63: write the 127 form by hand
+										h.Len = 1 << 20
+										hb = refmodel.HdrEncode(h)
+										for i := 0; i < 8; i++ {
+											hb[2+i] = byte(uint64(ann) >> (56 - 8*uint(i)))
+										}
+									}
 									// a few bytes follow so that an implementation that starts reading the payload is seen to do so
 									data := append(append(append([]byte{}, pre...), hb...), 0xEE, 0xEE, 0xEE)
 									hdrEnd := len(pre) + len(hb)
 									src := env.NewSrc(data)
-									if ch < 0 {
+									var source io.Reader = src
+									switch {
+									case ch == -3:
+										br := bufio.NewReaderSize(src, 4096)
+										br.Peek(1)
+										source = br
+									case ch < 0:
 										src.Cut, src.WithLast = hdrEnd, ch == -2
-									} else {
+									default:
 										src.Policy = env.FixedChunk(ch)
 									}
-									rd := &wsutil.Reader{Source: src, State: drivers.State(side), MaxFrameSize: limit, SkipHeaderCheck: ch%2 != 0}
+									rd := &wsutil.Reader{Source: source, State: drivers.State(side), MaxFrameSize: limit, SkipHeaderCheck: ch%2 != 0}
 									if inMsg {
 										if _, err := rd.NextFrame(); err != nil {
 											return explore.Failf("prefix-error", "%v", err)
@@ -490,11 +507,18 @@ func main() {
 									} else {
 										_, err = rd.NextFrame()
 									}
+									if ann < 0 {
+										if err == nil || len(got) != 0 {
+											return explore.Failf("length-with-top-bit-set-accepted", "announced %#x: err=%v delivered %x", uint64(ann), err, got)
+										}
+										t.Outcome("refused")
+										return nil
+									}
 									if ann > limit {
 										if err != wsutil.ErrFrameTooLarge {
 											return explore.Failf("oversize-not-refused", "announced %d > limit %d: err=%v", ann, limit, err)
 										}
-										if src.Off > hdrEnd {
+										if src.Off > hdrEnd && ch != -3 {
 											return explore.Failf("payload-read-before-refusal", "consumed %d, header ends at %d", src.Off, hdrEnd)
 										}
 										if len(got) != 0 {
